@@ -1,4 +1,5 @@
 import Rtsp.Model.ClientSm
+import Rtsp.Proofs.ClientSm.Main
 /-
 C12 — the client survives hostile servers: theorems about the client control model
 (Model/ClientSm.lean).  Server behaviour is the input (events); every statement quantifies over all
@@ -144,5 +145,120 @@ theorem close_idle (c : Cfg) (s : St) (hc : s.closed = false) (hs : s.stack = []
 
 theorem close_idempotent (c : Cfg) (s : St) (hc : s.closed = true) : step c s .close = s := by
   simp [step, hc]
+
+
+/-! ### invariant: the run loop is always at a blocking point, and waits only for a pending call -/
+
+/-- Every state reachable from the initial one, by ANY sequence of API calls and server events, is
+idle / closed (empty stack) or inside waitResponse on behalf of the API call being served.  In
+particular `step`'s catch-all branch (an event nobody consumes, not even the timer) is unreachable:
+there is no waiting state without an enabled timer. -/
+theorem reachable_inv (c : Cfg) (es : List Ev) : Inv (run c init es) :=
+  run_inv c es init (Or.inl rfl)
+
+theorem reachable_waiting_has_timer (c : Cfg) (es : List Ev) :
+    let s := run c init es
+    s.closed = true ∨ s.stack = [] ∨
+      ∃ m n tp k a, s.stack = .wait m n tp :: k ∧ s.pending = some a ∧
+        step c s .timer = resume c k { s with mustClose := true } (.err .timeout) := by
+  intro s
+  by_cases hc : s.closed = true
+  · exact Or.inl hc
+  · right
+    have hc' : s.closed = false := by simpa using hc
+    rcases reachable_inv c es with h | ⟨⟨m, n, tp, k, hs⟩, a, ha⟩
+    · exact Or.inl h
+    · exact Or.inr ⟨m, n, tp, k, a, hs, ha, wait_has_timer c s m n tp k hc' hs⟩
+
+/-! ### every_call_returns, part 2: the timer (and every other failure of the wait) returns the call -/
+
+/-- A failing waitResponse (error `e`) below which no `reset` is in progress: the error travels
+through all caller frames unchanged, the pending API call returns `e`, the client closes with `e`
+latched as closeError. -/
+theorem wait_failure_returns (c : Cfg) (s : St) (e : Err) (k : List Fr) (a : Api)
+    (hp : s.pending = some a) (hk : NoReset k) :
+    let s' := waitFail c s e k
+    s'.closed = true ∧ s'.closeRes = some e ∧ Out.ret a (some e) ∈ s'.out ∧ s'.stack = [] := by
+  intro s'
+  have hr : s' = deliver (undoAll k { s with mustClose := true }) (.err e) := resume_err c k hk _ _
+  have hkp := undoAll_keeps k { s with mustClose := true }
+  rw [hr]
+  exact deliver_err_mustClose _ e a (by rw [hkp.1]) (by rw [hkp.2.1]; exact hp)
+
+/-- **every_call_returns**: in every waiting state (no `reset` in progress) the timer transition
+returns ErrClientRequestTimedOut to the pending API call and closes the client with that error. -/
+theorem every_call_returns (c : Cfg) (s : St) (m : Meth) (n tp : Nat) (k : List Fr) (a : Api)
+    (hc : s.closed = false) (hs : s.stack = .wait m n tp :: k) (hp : s.pending = some a)
+    (hk : NoReset k) :
+    let s' := step c s .timer
+    s'.closed = true ∧ s'.closeRes = some .timeout ∧ Out.ret a (some .timeout) ∈ s'.out ∧ s'.stack = [] := by
+  intro s'
+  have : s' = waitFail c s .timeout k := by simp [s', step, hc, hs]
+  rw [this]
+  exact wait_failure_returns c s .timeout k a hp hk
+
+example :
+    let s := step {} init (.call .describe)
+    s.closed = false ∧ s.stack = [.wait .options 1 0, .optionsK, .doOpt .describe false 0, .describeK] ∧
+    s.pending = some .describe := by decide
+
+/-- the same for the other ways a wait can fail: connection lost / unparsable input, a request of
+the server that is not OPTIONS -/
+theorem read_error_returns (c : Cfg) (s : St) (m : Meth) (n tp : Nat) (k : List Fr) (a : Api)
+    (hc : s.closed = false) (hs : s.stack = .wait m n tp :: k) (hp : s.pending = some a)
+    (hk : NoReset k) :
+    (step c s .readErr).closed = true ∧ (step c s .readErr).closeRes = some .other ∧
+    Out.ret a (some .other) ∈ (step c s .readErr).out := by
+  have : step c s .readErr = waitFail c { s with reader := false } .other k := by simp [step, hc, hs]
+  rw [this]
+  have h := wait_failure_returns c { s with reader := false } .other k a hp hk
+  exact ⟨h.1, h.2.1, h.2.2.1⟩
+
+theorem server_request_returns (c : Cfg) (s : St) (m : Meth) (n tp : Nat) (k : List Fr) (a : Api)
+    (hc : s.closed = false) (hs : s.stack = .wait m n tp :: k) (hp : s.pending = some a)
+    (hk : NoReset k) :
+    (step c s (.sreq false)).closed = true ∧ (step c s (.sreq false)).closeRes = some .unhandledMethod ∧
+    Out.ret a (some .unhandledMethod) ∈ (step c s (.sreq false)).out := by
+  have : step c s (.sreq false) = waitFail c s .unhandledMethod k := by simp [step, hc, hs]
+  rw [this]
+  have h := wait_failure_returns c s .unhandledMethod k a hp hk
+  exact ⟨h.1, h.2.1, h.2.2.1⟩
+
+/-! ### close_reaches_closed -/
+
+/-- **close_reaches_closed**: Close, from any reachable state (idle, closed, or waiting with any call
+stack whatsoever — also in the middle of a redirect or of a transport switch), ends with the client
+closed; nothing can block once the context is cancelled. -/
+theorem close_reaches_closed (c : Cfg) (s : St) (h : Inv s) : (step c s .close).closed = true := by
+  cases hc : s.closed with
+  | true => simp [step, hc]
+  | false =>
+    rcases h with h | ⟨⟨m, n, tp, k, hs⟩, _⟩
+    · rw [close_idle c s hc h]; exact (runExit_closed _ _).1
+    · have : step c s .close = resume c k { s with ctxDone := true, mustClose := true } (.err .terminated) := by
+        simp [step, hc, hs, waitFail]
+      rw [this]
+      exact resume_dying c k _ _ ⟨rfl, rfl⟩
+
+/-- … and the error latched by a Close of a running client is an error (never nil) -/
+theorem close_reports_error (c : Cfg) (s : St) (h : Inv s) (hc : s.closed = false) :
+    (step c s .close).closeRes ≠ none := by
+  rcases h with h | ⟨⟨m, n, tp, k, hs⟩, _⟩
+  · rw [close_idle c s hc h, (runExit_closed _ _).2.1]; simp
+  · have : step c s .close = resume c k { s with ctxDone := true, mustClose := true } (.err .terminated) := by
+      simp [step, hc, hs, waitFail]
+    rw [this]
+    exact (resume_dyingE c k _ _ ⟨rfl, rfl⟩).2
+
+/-- from any reachable state: Close closes, a second Close changes nothing, and every later API call
+returns the latched error at once -/
+theorem close_then_calls_fail (c : Cfg) (es : List Ev) (a : Api) :
+    let s := step c (run c init es) .close
+    s.closed = true ∧ step c s .close = s ∧ step c s (.call a) = emit s (.ret a s.closeRes) := by
+  intro s
+  have hc : s.closed = true := close_reaches_closed c _ (reachable_inv c es)
+  exact ⟨hc, close_idempotent c s hc, after_failure_calls_fail c s a hc⟩
+
+example : Inv (step {} init (.call .describe)) := reachable_inv {} [.call .describe]
 
 end Rtsp.ClientSm.C12
